@@ -48,7 +48,7 @@ class PyCodeMapper(LokiStringifyMapper):
     map_int_literal = map_float_literal
 
     def map_cast(self, expr, enclosing_prec, *args, **kwargs):
-        _type = SymbolAttributes(BasicType.from_fortran_type(expr.name), kind=expr.kind)
+        _type = SymbolAttributes(BasicType.from_str(expr.name.lower()), kind=expr.kind)
         expression = self.parenthesize_if_needed(
             self.join_rec('', expr.parameters, PREC_NONE, *args, **kwargs),
             PREC_CALL, PREC_NONE)
